@@ -331,7 +331,20 @@ def c04_2(ctx):
 
 
 def c04_3(ctx):
-    """compact size: writer tiles contiguous and minimal; reader tag→width equals writer's"""
+    """compact size: writer tiles contiguous and minimal; reader tag→width equals writer's.  The interval reading of the encoder is the
+    primary rule when the encoder is in a form it reads; otherwise (or when it reports on a form it reads only partly) the compact-size
+    cells (every width boundary and its neighbours, evaluated) decide"""
+    from rules.bitcodecs import varint_cells
+    spec = "helper:encode_varint"
+    try:
+        out = _c04_3_struct(ctx)
+    except AnalysisError as e:
+        mod, fn = rl.get(ctx, spec)
+        out = [ctx.err(spec, str(e), fn, mod) for _ in range(FLOORS["C04.3"])]
+    return rl.defer(ctx, out, lambda: varint_cells(ctx), "decided by the compact-size cells (every width boundary and its neighbours: canonical form written, inverted by the reader); the encoder is not in the form the interval rule reads")
+
+
+def _c04_3_struct(ctx):
     out = []
     spec = "helper:encode_varint"
     mod, fn = rl.get(ctx, spec)
